@@ -389,6 +389,8 @@ def check(ctx):
     for cfgname in ctx.configs(quick=('base',), thorough=('base', 'wire', 'nostd')):
         f = ctx.facts(cfgname)
         rep.cur_config = cfgname
+        from . import common as _cm
+        _cm.check_helpers(ctx, f, rep, 'C13-R0', {'Probe::mark', 'Probe::is_probing'})
         from . import common as _common
         _common.check_frame(f, rep, 'C13-R0')
         eff = Effects(f)
